@@ -32,9 +32,9 @@
 (*   http2     -http2 (default true)     h2c   -h2c                        *)
 (*   hosthdr   -header "Host: virtual.example": the request's host          *)
 (*   stall     -output is a named pipe whose reader does not read for the   *)
-(*             first 400 ms: results are not taken, so every released hit   *)
+(*             first second: results are not taken, so every released hit   *)
 (*             needs a worker of its own (list: K times GET /size/100000/i, *)
-(*             -rate=200/s, -timeout=100ms, -duration=500ms, -max-workers=64)*)
+(*             -rate=200/s, -timeout=100ms, -duration=1.2s, -max-workers=64)*)
 (*   trust     "na" | "insecure" | "rootcert" | "none"   (tls only)        *)
 (*   format    "http" | "json"                                             *)
 (*   lazy      -lazy: the list is read while attacking and its end stops   *)
@@ -200,8 +200,9 @@ CmdOK(c, o) ==
        /\ (~c.stall => \A k \in 1..Len(o.results) : o.results[k].kind = "hit" => ResultOK(c, o, o.results[k]))
        /\ (~c.stall => \A j \in 1..Len(o.reqs) : RequestOK(c, o, o.reqs[j]))
        \* while nobody takes results every released hit occupies a worker: with fewer than max-workers busy it still starts at once
-       \* (o.early = requests the server saw begin within 350 ms of the first one; two thirds of what the pacer released, at least)
-       /\ (c.stall => 3 * o.early >= 2 * Min(c.maxw, (c.rate * 350) \div 1000))
+       \* (o.early = requests the server saw begin before the reader of the output started to read, a second into the attack:
+       \*  by then the pacer has released far more hits than there are workers; two thirds of the workers, at least, are busy)
+       /\ (c.stall => 3 * o.early >= 2 * Min(c.maxw, (c.rate * 1000) \div 1000))
        \* how many hits
        /\ IF c.lazy
           THEN \* the list is attacked once, entry by entry, then its end (or the malformed entry) stops the attack
@@ -212,7 +213,7 @@ CmdOK(c, o) ==
                /\ (c.maxw = 1 => \A k \in 1..K : Hits(o)[k].idx = k /\ Hits(o)[k].seq = k - 1)
           ELSE /\ Ends(o) = <<>>
                /\ Len(Hits(o)) >= 1
-               /\ (c.rate > 0 => Len(Hits(o)) <= (c.rate * (IF c.stall THEN 500 ELSE DurMs)) \div 1000 + 1)
+               /\ (c.rate > 0 => Len(Hits(o)) <= (c.rate * (IF c.stall THEN 1200 ELSE DurMs)) \div 1000 + 1)
                /\ (c.maxw = 1 => \A k \in 1..Len(Hits(o)) : Hits(o)[k].idx = ((Hits(o)[k].seq) % K) + 1)
        \* -max-workers bounds what the server sees at once; with an unlimited rate and slow answers the capacity is used
        \* (a request the client gave up on is still running in the server: cases with a timeout are left out)
